@@ -119,3 +119,94 @@ Example C11_nonvacuous :
   let '(low, s) := component_truncate 6%nat 6%nat s0 in
   satb (rows s) (wval s) = true /\ val (wval s low) = 40%Z.
 Proof. vm_compute. split; reflexivity. Qed.
+
+(* completeness: the witnesses the gadgets compute for a canonical input satisfy every row *)
+From PlonkV Require Import Composer.RangeComplete Composer.TruncComplete.
+Theorem C11_canonical_guard_complete : forall (PR : PrimeR) (asg : assignment) high low N base H L,
+  (1 <= N <= 254)%nat -> asg W_ZERO = fzero ->
+  asg high = F H -> asg low = F L ->
+  (0 <= H)%Z -> (0 <= L < 2 ^ Z.of_nat N)%Z -> (H * 2 ^ Z.of_nat N + L < r)%Z ->
+  let hb := (255 - N)%nat in
+  let b4 := (S base + range_nw hb)%nat in
+  let dv := (rhZ N - H)%Z in
+  let gv := (if (dv =? 0)%Z then rlZ N - L else 0)%Z in
+  asg base = F dv -> range_honest asg hb (S base) dv ->
+  asg b4 = (if (dv =? 0)%Z then fzero else finv (F dv)) ->
+  asg (S b4) = (if (dv =? 0)%Z then fzero else fone) ->
+  asg (S (S b4)) = (if (dv =? 0)%Z then fone else fzero) ->
+  asg (S (S (S b4))) = F (rlZ N - L) ->
+  asg (S (S (S (S b4)))) = F gv -> range_honest asg N (S (S (S (S (S b4))))) gv ->
+  block_sat (canon_blk high low N base) asg.
+Proof. exact @canon_complete. Qed.
+Check C11_canonical_guard_complete : forall (PR : PrimeR) (asg : assignment) high low N base H L,
+  (1 <= N <= 254)%nat -> asg W_ZERO = fzero ->
+  asg high = F H -> asg low = F L ->
+  (0 <= H)%Z -> (0 <= L < 2 ^ Z.of_nat N)%Z -> (H * 2 ^ Z.of_nat N + L < r)%Z ->
+  let hb := (255 - N)%nat in
+  let b4 := (S base + range_nw hb)%nat in
+  let dv := (rhZ N - H)%Z in
+  let gv := (if (dv =? 0)%Z then rlZ N - L else 0)%Z in
+  asg base = F dv -> range_honest asg hb (S base) dv ->
+  asg b4 = (if (dv =? 0)%Z then fzero else finv (F dv)) ->
+  asg (S b4) = (if (dv =? 0)%Z then fzero else fone) ->
+  asg (S (S b4)) = (if (dv =? 0)%Z then fone else fzero) ->
+  asg (S (S (S b4))) = F (rlZ N - L) ->
+  asg (S (S (S (S b4)))) = F gv -> range_honest asg N (S (S (S (S (S b4))))) gv ->
+  block_sat (canon_blk high low N base) asg.
+Print Assumptions C11_canonical_guard_complete.
+
+Theorem C11_split_complete : forall (PR : PrimeR) (asg : assignment) input low N base v,
+  (1 <= N <= 254)%nat -> asg W_ZERO = fzero -> (0 <= v < r)%Z ->
+  asg input = F v -> asg low = F (v mod 2 ^ Z.of_nat N) ->
+  let hb := (255 - N)%nat in
+  let Hv := (v / 2 ^ Z.of_nat N)%Z in let Lv := (v mod 2 ^ Z.of_nat N)%Z in
+  let b2 := (S base + range_nw hb)%nat in
+  let cb := S b2 in
+  let b4 := (S cb + range_nw hb)%nat in
+  let dv := (rhZ N - Hv)%Z in
+  let gv := (if (dv =? 0)%Z then rlZ N - Lv else 0)%Z in
+  asg base = F Hv -> range_honest asg hb (S base) Hv ->
+  asg b2 = F v ->
+  asg cb = F dv -> range_honest asg hb (S cb) dv ->
+  asg b4 = (if (dv =? 0)%Z then fzero else finv (F dv)) ->
+  asg (S b4) = (if (dv =? 0)%Z then fzero else fone) ->
+  asg (S (S b4)) = (if (dv =? 0)%Z then fone else fzero) ->
+  asg (S (S (S b4))) = F (rlZ N - Lv) ->
+  asg (S (S (S (S b4)))) = F gv -> range_honest asg N (S (S (S (S (S b4))))) gv ->
+  block_sat (split_blk input low N base) asg.
+Proof. exact @split_complete. Qed.
+Check C11_split_complete : forall (PR : PrimeR) (asg : assignment) input low N base v,
+  (1 <= N <= 254)%nat -> asg W_ZERO = fzero -> (0 <= v < r)%Z ->
+  asg input = F v -> asg low = F (v mod 2 ^ Z.of_nat N) ->
+  let hb := (255 - N)%nat in
+  let Hv := (v / 2 ^ Z.of_nat N)%Z in let Lv := (v mod 2 ^ Z.of_nat N)%Z in
+  let b2 := (S base + range_nw hb)%nat in
+  let cb := S b2 in
+  let b4 := (S cb + range_nw hb)%nat in
+  let dv := (rhZ N - Hv)%Z in
+  let gv := (if (dv =? 0)%Z then rlZ N - Lv else 0)%Z in
+  asg base = F Hv -> range_honest asg hb (S base) Hv ->
+  asg b2 = F v ->
+  asg cb = F dv -> range_honest asg hb (S cb) dv ->
+  asg b4 = (if (dv =? 0)%Z then fzero else finv (F dv)) ->
+  asg (S b4) = (if (dv =? 0)%Z then fzero else fone) ->
+  asg (S (S b4)) = (if (dv =? 0)%Z then fone else fzero) ->
+  asg (S (S (S b4))) = F (rlZ N - Lv) ->
+  asg (S (S (S (S b4)))) = F gv -> range_honest asg N (S (S (S (S (S b4))))) gv ->
+  block_sat (split_blk input low N base) asg.
+Print Assumptions C11_split_complete.
+
+Theorem C11_truncate_complete : forall (PR : PrimeR) (asg : assignment) w N base v,
+  (1 <= N <= 254)%nat -> asg W_ZERO = fzero -> (0 <= v < r)%Z -> asg w = F v ->
+  let Lv := (v mod 2 ^ Z.of_nat N)%Z in
+  asg base = F Lv -> range_honest asg N (S base) Lv ->
+  block_sat (split_blk w base N (S base + range_nw N)) asg ->
+  block_sat (truncate_blk w N base) asg.
+Proof. exact @truncate_complete. Qed.
+Check C11_truncate_complete : forall (PR : PrimeR) (asg : assignment) w N base v,
+  (1 <= N <= 254)%nat -> asg W_ZERO = fzero -> (0 <= v < r)%Z -> asg w = F v ->
+  let Lv := (v mod 2 ^ Z.of_nat N)%Z in
+  asg base = F Lv -> range_honest asg N (S base) Lv ->
+  block_sat (split_blk w base N (S base + range_nw N)) asg ->
+  block_sat (truncate_blk w N base) asg.
+Print Assumptions C11_truncate_complete.
